@@ -387,6 +387,8 @@ KF_PhantomGroup(def, top) ==
   \E i \in 1..Len(f.E.args) : HasGroup(f.c, f.E.args[i].id) /\ ExplicitSrc(f.E.args[i].src) /\ GroupMembers(f.c, f.E.args[i].id) \cap P = {}
 
 \* ---- observation equality (argument order inside a level is not observable) ------------------------
+\* ... and the same up to argument indices
+StripIdx(o) == [o EXCEPT !.chain = [i \in 1..Len(o.chain) |-> [o.chain[i] EXCEPT !.args = [j \in 1..Len(o.chain[i].args) |-> [o.chain[i].args[j] EXCEPT !.idx = <<>>]]]]]
 LevelSet(E) == [args |-> {E.args[i] : i \in 1..Len(E.args)}, sub |-> E.sub, has_sub |-> E.has_sub]
 ObsEq(o, m) ==
   /\ o.outcome = m.outcome /\ o.stderr = m.stderr /\ o.exit = m.exit
